@@ -1001,3 +1001,90 @@ func (cfg *LifeCfg) GenSettleAfterMigration(t *rapid.T, s *Sim) *Action {
 	}
 	return cfg.GenMigrate(t, s)
 }
+
+// GenPoorTakeover steers towards "a provider that cannot afford the collateral takes over a renewed
+// shard": a stored shard with a queued renewal is migrated, the new provider's balance is reduced
+// to a few coins (or to just below / at the collateral) and it completes the hand-over. When no
+// shard has a queued renewal yet, a renewal is returned instead. Intermediate steps are applied here.
+func (cfg *LifeCfg) GenPoorTakeover(t *rapid.T, s *Sim) *Action {
+	var renewed, plain []ordertypes.Shard
+	for _, sh := range sortedShards(s.Last) {
+		if sh.Status != ordertypes.ShardCompleted {
+			continue
+		}
+		o, ok := listingOrder(s.Last, sh)
+		if !ok {
+			continue
+		}
+		if m, ok := s.Last.Metas[o.DataId]; !ok || m.Status != modeltypes.MetaComplete {
+			continue
+		}
+		if len(sh.RenewInfos) > 0 {
+			renewed = append(renewed, sh)
+		} else {
+			plain = append(plain, sh)
+		}
+	}
+	if len(renewed) == 0 {
+		if len(plain) == 0 {
+			return nil
+		}
+		sh := plain[rapid.IntRange(0, len(plain)-1).Draw(t, "shard")]
+		o, _ := listingOrder(s.Last, sh)
+		m := s.Last.Metas[o.DataId]
+		a := NewAction("renew", rapid.SampledFrom(cfg.Providers).Draw(t, "gateway"))
+		a.Owner = s.didIdx(m.Owner)
+		if a.Owner < 0 {
+			return nil
+		}
+		a.Data = []string{m.DataId}
+		a.Duration = cfg.genDur(t)
+		if rapid.Bool().Draw(t, "longer") {
+			a.Duration = rapid.Uint64Range(sh.Duration+1, sh.Duration+2*cfg.MaxDur).Draw(t, "longDur")
+		}
+		a.Timeout = 10
+		return a
+	}
+	sh := renewed[rapid.IntRange(0, len(renewed)-1).Draw(t, "shard")]
+	o, _ := listingOrder(s.Last, sh)
+	holder := s.acctOf(sh.Sp)
+	if holder < 0 {
+		return nil
+	}
+	mg := NewAction("migrate", holder)
+	mg.Data = []string{o.DataId}
+	if !s.Do(mg).OK {
+		return nil
+	}
+	for _, n := range sortedShards(s.Last) {
+		if n.Status != ordertypes.ShardMigrating || n.From != sh.Sp || n.Cid != sh.Cid {
+			continue
+		}
+		target := s.acctOf(n.Sp)
+		via, ok := s.orderListing(n)
+		if target < 0 || !ok {
+			continue
+		}
+		// the collateral that will be asked for: at least the highest queued renewal collateral
+		want := int64(1)
+		for _, ri := range sh.RenewInfos {
+			if ri.Pledge.Amount.IsInt64() && ri.Pledge.Amount.Int64() > want {
+				want = ri.Pledge.Amount.Int64()
+			}
+		}
+		keep := rapid.SampledFrom([]int64{0, 1, 3, want / 2, want - 1, want, want + 1}).Draw(t, "keep")
+		if keep < 0 {
+			keep = 0
+		}
+		if bal := s.Last.Bal[n.Sp]; bal.IsInt64() && bal.Int64() > keep {
+			d := NewAction("bank_send", target)
+			d.Target, d.Amount = 11, bal.Int64()-keep
+			s.Do(d)
+		}
+		s.Label("poor-takeover-tried")
+		c := NewAction("complete", target)
+		c.Order, c.Cid, c.Size = via, n.Cid, n.Size_
+		return c
+	}
+	return nil
+}
